@@ -77,6 +77,19 @@ def run_case(cs, ctx):
             v['pmax'] = v['pmin']
             v.pop('lq', None)
             ctx.cov('first_side_list_of_258_or_more_entries_with_dense_ties')
+        if cs % 40 == 16 and v['mp'] in ('ha', 'hr', 'spa'):
+            # quota sums that no double represents exactly (accepted: -uq only has to be at least n2)
+            big = rng.choice([10 ** 17 + 1, 2 ** 60 + 5, 9007199254740993, 123456789012345678901])
+            v['uq'] = big + rng.randint(0, 6)
+            if rng.random() < 0.5:
+                v['lq'] = rng.choice([0, 2 ** 53 + 3, v['uq'] - 1])
+            else:
+                v.pop('lq', None)
+            if v['mp'] == 'spa':
+                v['luq'] = big + rng.randint(0, 6)
+                v['lt'] = rng.choice([v['luq'], v['luq'] - 3, 2 ** 53 + 1])
+                v['llq'] = rng.choice([0, 2 ** 53 + 1, v['lt']])
+            ctx.cov('quota_sums_beyond_2_to_the_53')
         if cs % 40 == 12 and v['mp'] == 'hr':
             # one hospital ranked by 258..330 residents, dense ties on the second side
             n1 = rng.randint(258, 330)
